@@ -250,7 +250,7 @@ theorem no_fall (P : Prog) : ∀ (f : Nat),
       | assign x e => simp [stmtReturns] at hs
       | tupleAssign xs es => simp [stmtReturns] at hs
       | augAssign x op e => simp [stmtReturns] at hs
-      | retNone => simp [stmtReturns] at hs
+      | retNone => rw [execStmt] at h; simp at h
       | skip => simp [stmtReturns] at hs
       | unhandled => simp [stmtReturns] at hs
       | multiAssign xs e => simp [stmtReturns] at hs
